@@ -630,6 +630,13 @@ def install(interp):
             return x.n
         if isinstance(x, (BBytes, SymBytes)):
             return x.nbytes
+        if isinstance(x, SRange):
+            a, b, st = x.start, x.stop, x.step
+            if sym.truth(sym.eq(st, 0)):
+                interp.throw('ValueError', 'range() arg 3 must not be zero')
+            if sym.truth(st > 0):
+                return ite(b <= a, 0, sym.floordiv_mod(b - a - 1, st)[0] + 1)
+            return ite(b >= a, 0, sym.floordiv_mod(a - b - 1, -st)[0] + 1)
         if isinstance(x, SStr):
             raise Unsupported("len of digit string")
         if is_sym(x):
